@@ -472,3 +472,210 @@ def parse_canon(frame):
         return canon(k, f)
     except Bad:
         return "reject"
+
+# ==================================================================================================================
+# Network level authentication: strict parsers of the NTLM tokens (MS-NLMP 2.2.1.1 NEGOTIATE_MESSAGE, 2.2.1.3
+# AUTHENTICATE_MESSAGE with 2.2.2.1 AV_PAIR, 2.2.2.7 NTLMv2_CLIENT_CHALLENGE, 2.2.2.8 NTLMv2_RESPONSE, 2.2.2.10
+# VERSION) and of the CredSSP structures (MS-CSSP 2.2.1 TSRequest, 2.2.1.1 NegoData, 2.2.1.2 TSCredentials,
+# 2.2.1.2.1 TSPasswordCreds; X.690 DER).  Written from the standards, independently of the Coq spec
+# (coq/StrictNla.v) -- the two are compared on every token of the correspondence run.
+# Strict: Len = MaxLen in every descriptor, every described field inside the payload, the fields tile the payload
+# exactly (sorted sweep: no gap, no overlap, nothing left over; any order), fixed sizes, UTF-16LE names without
+# unpaired surrogates under NTLMSSP_NEGOTIATE_UNICODE, AV list closed by a zero-length MsvAvEOL with nothing
+# after it (or the Z(4) of MS-NLMP 3.3.2), DER with definite minimal lengths and minimal INTEGERs, exact consumption.
+# Readings accepted both ways (see coq/StrictNla.v): VERSION absent or eight zero bytes when the flag is clear; the AV list
+# followed by nothing or by Z(4); session-key length free without KEY_EXCH; character set Unicode iff the flag, else OEM.
+NTLMSSP = b"NTLMSSP\x00"
+F_UNICODE, F_DOMAIN_SUPPLIED, F_WORKSTATION_SUPPLIED, F_VERSION, F_KEY_EXCH = 1 << 0, 1 << 12, 1 << 13, 1 << 25, 1 << 30
+
+def _descriptor(r, what):
+    ln, mx, off = r.le16(what + "Len"), r.le16(what + "MaxLen"), r.le32(what + "BufferOffset")
+    need(ln == mx, "%s: Len %d != MaxLen %d" % (what, ln, mx))
+    return (off, ln, what)
+
+def _tile(fields, start, stop):
+    """the described byte ranges must cover [start, stop) exactly: sorted sweep"""
+    cur = start
+    for off, ln, what in sorted(fields, key=lambda f: (f[0], f[1])):
+        need(off >= start, "%s: offset %d points into the fixed part (payload starts at %d)" % (what, off, start))
+        need(off + ln <= stop, "%s: offset %d + length %d runs past the end of the %d byte message" % (what, off, ln, stop))
+        need(off == cur, "%s: starts at %d but the previous field ends at %d (gap or overlap)" % (what, off, cur))
+        cur = off + ln
+    need(cur == stop, "%d payload bytes are described by no field" % (stop - cur))
+
+def _version_slot(r, flags, zero_version):
+    if flags & F_VERSION:
+        v = r.take(8, "Version")
+        need(v[7] == 0x0F, "Version.NTLMRevisionCurrent is %#x, not NTLMSSP_REVISION_W2K3" % v[7])
+        return v
+    if zero_version:
+        need(r.take(8, "Version") == b"\x00" * 8, "Version must be all zero when NTLMSSP_NEGOTIATE_VERSION is clear")
+    return None
+
+def _two_readings(f, tok):
+    try:
+        return f(tok, False)
+    except Bad as e:
+        first = e
+    try:
+        return f(tok, True)
+    except Bad:
+        raise first
+
+def _name(unicode_flag, b, what):
+    if not unicode_flag: return ("o", bytes(b))
+    need(len(b) % 2 == 0, "%s: odd number of bytes in a UTF-16 string" % what)
+    try:
+        return ("u", utf16_decode(units_of(b)))
+    except Bad as e:
+        raise Bad("%s: %s" % (what, e))
+
+def av_list(b, what="AV pairs"):
+    """AV_PAIRs up to and including MsvAvEOL -> ([(id, value)], number of bytes consumed)"""
+    r = Rd(b, what); out = []
+    while True:
+        aid = r.le16("AvId"); ln = r.le16("AvLen")
+        v = r.take(ln, "AV value")
+        if aid == 0:
+            need(ln == 0, "MsvAvEOL with AvLen %d" % ln)
+            return out, r.i
+        need(aid <= 10, "unknown AvId %d" % aid)
+        out.append((aid, v))
+
+def ntlmv2_response(b):
+    r = Rd(b, "NtChallengeResponse")
+    o = {"proof": r.take(16, "NTProofStr")}
+    need(r.u8("RespType") == 1, "RespType"); need(r.u8("HiRespType") == 1, "HiRespType")
+    need(r.take(2, "Reserved1") == b"\x00\x00", "Reserved1"); need(r.take(4, "Reserved2") == b"\x00" * 4, "Reserved2")
+    o["timestamp"] = r.take(8, "TimeStamp"); o["client_challenge"] = r.take(8, "ChallengeFromClient")
+    need(r.take(4, "Reserved3") == b"\x00" * 4, "Reserved3 is not zero")
+    o["av"], used = av_list(r.b[r.i:], "NTLMv2_CLIENT_CHALLENGE.AvPairs"); r.i += used
+    if r.left(): need(r.take(4, "trailing Z(4)") == b"\x00" * 4, "bytes after MsvAvEOL that are not the Z(4) of the computation")
+    r.end()
+    return o
+
+def _negotiate(tok, zero_version):
+    r = Rd(tok, "NEGOTIATE_MESSAGE")
+    need(r.take(8, "Signature") == NTLMSSP, "Signature"); need(r.le32("MessageType") == 1, "MessageType is not 1")
+    flags = r.le32("NegotiateFlags")
+    dom = _descriptor(r, "DomainName"); ws = _descriptor(r, "Workstation")
+    ver = _version_slot(r, flags, zero_version)
+    start = r.i
+    fields = []
+    if flags & F_DOMAIN_SUPPLIED: fields.append(dom)
+    else: need(dom[1] == 0, "DomainName has a length but NTLMSSP_NEGOTIATE_OEM_DOMAIN_SUPPLIED is clear")
+    if flags & F_WORKSTATION_SUPPLIED: fields.append(ws)
+    else: need(ws[1] == 0, "Workstation has a length but NTLMSSP_NEGOTIATE_OEM_WORKSTATION_SUPPLIED is clear")
+    _tile(fields, start, len(tok))
+    cut = lambda f: tok[f[0]:f[0] + f[1]]
+    return {"flags": flags, "domain": cut(dom) if flags & F_DOMAIN_SUPPLIED else b"",
+            "workstation": cut(ws) if flags & F_WORKSTATION_SUPPLIED else b"", "version": ver}
+
+def ntlm_negotiate(tok): return _two_readings(_negotiate, bytes(tok))
+
+def _authenticate(tok, zero_version):
+    r = Rd(tok, "AUTHENTICATE_MESSAGE")
+    need(r.take(8, "Signature") == NTLMSSP, "Signature"); need(r.le32("MessageType") == 3, "MessageType is not 3")
+    names = ["LmChallengeResponse", "NtChallengeResponse", "DomainName", "UserName", "Workstation", "EncryptedRandomSessionKey"]
+    f = [_descriptor(r, n) for n in names]
+    flags = r.le32("NegotiateFlags")
+    ver = _version_slot(r, flags, zero_version)
+    mic = r.take(16, "MIC")
+    _tile(f, r.i, len(tok))
+    lm, nt, dom, usr, ws, key = [tok[o:o + l] for o, l, _ in f]
+    need(len(lm) == 24, "LmChallengeResponse is %d bytes, 24 specified" % len(lm))
+    u = bool(flags & F_UNICODE)
+    o = {"flags": flags, "version": ver, "mic": mic, "lm": lm, "nt": ntlmv2_response(nt),
+         "domain": _name(u, dom, "DomainName"), "user": _name(u, usr, "UserName"), "workstation": _name(u, ws, "Workstation"), "key": key}
+    if flags & F_KEY_EXCH: need(len(key) == 16, "EncryptedRandomSessionKey is %d bytes, 16 specified" % len(key))
+    return o
+
+def ntlm_authenticate(tok): return _two_readings(_authenticate, bytes(tok))
+
+# ---- DER
+def der_len(r):
+    b = r.u8("DER length")
+    if b < 0x80: return b
+    k = b & 0x7f
+    need(1 <= k <= 8, "DER length: indefinite or oversized form %#x" % b)
+    d = r.take(k, "DER long length")
+    need(d[0] != 0, "DER length with a leading zero octet"); n = int.from_bytes(d, "big")
+    need(n >= 0x80, "DER length %d in the long form" % n)
+    return n
+
+def der_tlv(r, tag, what):
+    need(r.u8(what + " tag") == tag, "%s: tag is not %#x" % (what, tag))
+    return r.take(der_len(r), what)
+
+def der_uint(r, what):
+    c = der_tlv(r, 0x02, what)
+    need(len(c) >= 1, what + ": empty INTEGER"); need(c[0] < 0x80, what + ": negative INTEGER")
+    need(not (len(c) > 1 and c[0] == 0 and c[1] < 0x80), what + ": INTEGER not minimal")
+    return int.from_bytes(c, "big")
+
+def der_explicit(r, n, inner, what):
+    q = Rd(der_tlv(r, 0xa0 | n, what), what)
+    v = inner(q, what); q.end(); return v
+
+def der_optional(r, n, inner, what):
+    if r.left() and r.b[r.i] == (0xa0 | n): return der_explicit(r, n, inner, what)
+    return None
+
+def _octets(r, what): return der_tlv(r, 0x04, what)
+
+def _nego_data(r, what):
+    q = Rd(der_tlv(r, 0x30, what), what); out = []
+    while q.left():
+        e = Rd(der_tlv(q, 0x30, "NegoData element"), "NegoData element")
+        out.append(der_explicit(e, 0, _octets, "negoToken")); e.end()
+    return out
+
+def ts_request(b):
+    r = Rd(b, "TSRequest"); q = Rd(der_tlv(r, 0x30, "TSRequest"), "TSRequest"); r.end()
+    o = {"version": der_explicit(q, 0, der_uint, "version"), "nego": der_optional(q, 1, _nego_data, "negoTokens"),
+         "auth_info": der_optional(q, 2, _octets, "authInfo"), "pub_key_auth": der_optional(q, 3, _octets, "pubKeyAuth"),
+         "error_code": der_optional(q, 4, der_uint, "errorCode"), "client_nonce": der_optional(q, 5, _octets, "clientNonce")}
+    q.end()
+    return o
+
+def ts_password_creds(b, unicode_flag):
+    r = Rd(b, "TSPasswordCreds"); q = Rd(der_tlv(r, 0x30, "TSPasswordCreds"), "TSPasswordCreds"); r.end()
+    d = der_explicit(q, 0, _octets, "domainName"); u = der_explicit(q, 1, _octets, "userName"); p = der_explicit(q, 2, _octets, "password")
+    q.end()
+    return {"domain": _name(unicode_flag, d, "domainName"), "user": _name(unicode_flag, u, "userName"), "password": _name(unicode_flag, p, "password")}
+
+def ts_credentials(b, unicode_flag):
+    r = Rd(b, "TSCredentials"); q = Rd(der_tlv(r, 0x30, "TSCredentials"), "TSCredentials"); r.end()
+    need(der_explicit(q, 0, der_uint, "credType") == 1, "credType is not 1 (password)")
+    c = der_explicit(q, 1, _octets, "credentials"); q.end()
+    return ts_password_creds(c, unicode_flag)
+
+def nla_message(b):
+    """one CredSSP message of the client, down to the NTLM token inside (MS-CSSP 3.1.5)"""
+    q = ts_request(b)
+    need(q["error_code"] is None, "errorCode in a client message")
+    n, a, k = q["nego"], q["auth_info"], q["pub_key_auth"]
+    if n is not None and len(n) == 1 and a is None and k is None: return ("nla1", q["version"], ntlm_negotiate(n[0]))
+    if n is not None and len(n) == 1 and a is None and k is not None: return ("nla2", q["version"], ntlm_authenticate(n[0]), k)
+    if n is None and a is not None and k is None: return ("nla3", q["version"], a)
+    raise Bad("TSRequest with a combination of fields no client message has")
+
+# ---- canonical renderings (same text as ocaml/pdus/driver.ml `parsenla`)
+def _hx(b): return bytes(b).hex() if b else "-"
+def _on(b): return "none" if b is None else _hx(b)
+def _nm(n): return "u:" + _ns(n[1]) if n[0] == "u" else "o:" + _hx(n[1])
+def canon_negotiate(g): return "neg flags=%d dom=%s ws=%s ver=%s" % (g["flags"], _hx(g["domain"]), _hx(g["workstation"]), _on(g["version"]))
+def canon_authenticate(a):
+    nt = a["nt"]
+    return "auth flags=%d ver=%s mic=%s lm=%s proof=%s ts=%s cc=%s av=%s dom=%s user=%s ws=%s key=%s" % (
+        a["flags"], _on(a["version"]), _hx(a["mic"]), _hx(a["lm"]), _hx(nt["proof"]), _hx(nt["timestamp"]), _hx(nt["client_challenge"]),
+        ",".join("%d:%s" % (i, _hx(v)) for i, v in nt["av"]) or "-", _nm(a["domain"]), _nm(a["user"]), _nm(a["workstation"]), _hx(a["key"]))
+def canon_ts_request(q):
+    return "tsreq v=%d nego=%s auth=%s pka=%s err=%s nonce=%s" % (
+        q["version"], "none" if q["nego"] is None else "[" + ",".join(_hx(t) for t in q["nego"]) + "]", _on(q["auth_info"]),
+        _on(q["pub_key_auth"]), "none" if q["error_code"] is None else str(q["error_code"]), _on(q["client_nonce"]))
+def canon_creds(c): return "creds dom=%s user=%s pw=%s" % (_nm(c["domain"]), _nm(c["user"]), _nm(c["password"]))
+def canon_nla(m):
+    if m[0] == "nla1": return "nla1 v=%d %s" % (m[1], canon_negotiate(m[2]))
+    if m[0] == "nla2": return "nla2 v=%d pka=%s %s" % (m[1], _hx(m[3]), canon_authenticate(m[2]))
+    return "nla3 v=%d info=%s" % (m[1], _hx(m[2]))
